@@ -3,5 +3,6 @@ CONSTANTS
   MaxL = 12
   MaxB = 6
   MaxH = 14
-INVARIANTS ChunkContent ChunkCount HintOK Coverage
+  MaxJ = 4
+INVARIANTS ChunkContent ChunkCount HintOK Coverage NthOK
 CHECK_DEADLOCK FALSE
